@@ -231,7 +231,7 @@ def run_tlc_job(ck, tier, j):
     sim = j["consts"].get("sim")
     try:
         j["res"] = vlib.tlc(j["module"], os.path.basename(cfg), tags=(j["tagname"],), sinks={j["tagname"]: j["out"]},
-                            timeout=3000 if tier == "thorough" else 900, heap="8g" if tier == "thorough" else "4g",
+                            timeout=5400 if tier == "thorough" else 2400, heap="8g" if tier == "thorough" else "4g",
                             tag=f"{j['module']}_{PID}_{tier}_{tag}",
                             simulate=sim[0] if sim else None, depth=sim[1] if sim else None)
     except Exception as e:  # reported by the caller (threads must not lose it)
@@ -253,7 +253,7 @@ def consume(ck, tier, j, nontrivial):
             vlib.tlc_ok(res, f"{sub} {label}")   # raises ToolError with TLC's output
         ck.add_tlc(res, f"{sub} {label}")
         rows = run_sharded(sub, path, os.path.join(ck.dir, f"{sub}_replay_{tier}_{tag}"), NSHARD,
-                           timeout=3000 if tier == "thorough" else 900, hashes=nontrivial)
+                           timeout=5400 if tier == "thorough" else 2400, hashes=nontrivial)
         summ = absorb(ck, sub, rows)
         emitted = res["counts"]["EDGE" if sub == "demux" else "CASE"]
         if sub == "demux":
